@@ -136,7 +136,13 @@ class Number(Element):
         )
 
     def set_value_from_message(self, msg):
-        self.set_value(values.str_to_num(msg.value, self._definition.format))
+        value = values.str_to_num(msg.value, self._definition.format)
+        try:
+            # a value the property's format cannot render could never be published
+            checks.number(values.num_to_str(value, self._definition.format))
+        except ArithmeticError as e:
+            raise ValueError(f"Value not representable as {self._definition.format}: {e}")
+        self.set_value(value)
 
 
 class Text(Element):
